@@ -218,7 +218,7 @@ impl<T: Send + Sync + 'static> Puppet<T> {
         let env = &*me.env;
         let (ix, name) = env.new_inst(me.id);
         me.insts.lock().unwrap_or_else(|e| e.into_inner()).push((ix, sink));
-        let _g = env.call("S", &name, "Sub", json!(0));
+        let _g = env.call("S", &name, "Sub", json!(me.id as i64));
         let (_, late) = env.pup_mode(me.id);
         let opts: Vec<&str> = if late { vec!["now", "later"] } else { vec!["now"] };
         let c = env.decide("sub", &name, &opts);
